@@ -21,6 +21,12 @@ import sys
 
 sys.path.insert(0, os.path.dirname(os.path.dirname(os.path.abspath(__file__))))
 import pegdump  # noqa: E402
+import mmdump  # noqa: E402
+import importlib.util  # noqa: E402
+
+_spec = importlib.util.spec_from_file_location("impl_c01", os.path.join(os.path.dirname(os.path.abspath(__file__)), "c01.py"))
+impl_c01 = importlib.util.module_from_spec(_spec)       # the C01/C06 runner's model dump (read only)
+_spec.loader.exec_module(impl_c01)
 
 import arpeggio as A  # noqa: E402
 from textx import metamodel_from_str  # noqa: E402
@@ -122,12 +128,26 @@ def literal_positions(d, parser, text):
     return sorted(set(pos)), values_ok
 
 
-def run_one(d, mm, text):
+def run_one(d, mm, text, mi=None):
     run = {"table": d.oracle_table(text)}
     p = mm._parser_blueprint.clone()
     run["tree"] = pegdump.parse_outcome(d, p, text)
     run["model"] = load(mm, text)
+    if mi is not None:
+        # for the model-level composition with Model/Build.v: group spans and the model in the C01/C06 dump format
+        run["gtable"] = mmdump.group_table(d, mi, text)
+        try:
+            run["model01"] = impl_c01.load(lambda: mm.model_from_str(text))
+        except impl_c01.Timeout:
+            raise Timeout()
     return run, p
+
+
+def mm_info(mm, d):
+    try:
+        return mmdump.dump_mm(mm, d)
+    except pegdump.Unsupported:
+        return None
 
 
 def do_c20(case):
@@ -161,11 +181,13 @@ def do_c20(case):
         res["grammar_error"] = "%s" % type(e).__name__
         return res
     res["dump"] = annotate(d)
+    mi = mm_info(mm, d)
+    res["mm"], res["auto"], res["use_grp"] = mi, bool(mm.auto_init_attributes), bool(mm.use_regexp_group)
     masks = case.get("masks", [])
     for text in case["inputs"]:
         try:
             signal.setitimer(signal.ITIMER_REAL, 20, 1)
-            run, p = run_one(d, mm, text)
+            run, p = run_one(d, mm, text, mi)
             run["variants"] = []
             if run["tree"].startswith("P:"):
                 L, vok = literal_positions(d, p, text)
@@ -187,7 +209,7 @@ def do_c20(case):
                         if m >> i & 1:
                             cs[q] = cs[q].swapcase()
                     t2 = "".join(cs)
-                    v, _ = run_one(d, mm, t2)
+                    v, _ = run_one(d, mm, t2, mi)
                     v["input"] = t2
                     run["variants"].append(v)
             signal.setitimer(signal.ITIMER_REAL, 0)
@@ -295,6 +317,8 @@ def do_c21(case):
         d0 = pegdump.dump_metamodel(mm0)
         d1 = pegdump.dump_metamodel(mm1)
         res["dump_plain"], res["dump_kw"] = annotate(d0), annotate(d1)
+        res["mm_plain"], res["mm_kw"] = mm_info(mm0, d0), mm_info(mm1, d1)
+        res["auto"], res["use_grp"] = bool(mm1.auto_init_attributes), bool(mm1.use_regexp_group)
     except pegdump.Unsupported as e:
         # the tie to the model is lost for this grammar; the property is still observed on the implementation
         res["dump_error"] = "Unsupported: %s" % e
@@ -303,8 +327,8 @@ def do_c21(case):
         try:
             signal.setitimer(signal.ITIMER_REAL, 10, 1)
             if d0 is not None:
-                r0, p0 = run_one(d0, mm0, text)
-                r1, p1 = run_one(d1, mm1, text)
+                r0, p0 = run_one(d0, mm0, text, res.get("mm_plain"))
+                r1, p1 = run_one(d1, mm1, text, res.get("mm_kw"))
                 r1["glued"] = glued_keyword_matches(p1, text, kws)
             else:
                 r0, r1 = run_light(mm0, text, kws), run_light(mm1, text, kws)
